@@ -2,12 +2,15 @@ package checks
 
 import (
 	"bytes"
+	"encoding/json"
 	"errors"
 	"fmt"
 	"io"
+	"math/big"
 	"os"
 	"path/filepath"
 	"sort"
+	"strconv"
 	"sync"
 	"time"
 
@@ -15,6 +18,7 @@ import (
 	"verifsim/gtier"
 	"verifsim/ops"
 	"verifsim/rollup"
+	"verifsim/service"
 	"verifsim/tape"
 
 	"worldcoin/gnark-mbu/prover"
@@ -351,7 +355,9 @@ func (c *C15) Run(x *engine.Ctx) *engine.Violation {
 	if ops.Bin() != "" && x.Run%5 == 4 {
 		// CLI matrix, enumerated: every command that reads a keys file x both formats x a cut in every section
 		// (and at the boundaries the property names), so that a short run has all of them
-		m := int(x.Run / 5)
+		// visited in a scattered order (37 is coprime to 96) so that even a short or slow run has every command,
+		// both formats and every cut class early on
+		m := (int(x.Run/5) * 37) % 96
 		cmd, fm, cls := m%6, (m/6)%2, (m/12)%8
 		format, data, ends = "raw", d.raw, d.rawB
 		if fm == 1 {
@@ -506,6 +512,7 @@ type C11 struct {
 	d     *diskSys
 	other *gtier.System
 	dw    int
+	nw    int // number of workers (runs are dealt round-robin)
 }
 
 func init() { register(&C11{base: base{id: "C11", level: "exploration"}, dw: -1}) }
@@ -537,7 +544,7 @@ func (c *C11) Init(tier string, worker, nworkers int, seed uint64) error {
 	// deletion batch larger than the tree (padding entries make that a legitimate system), the largest
 	// depths both circuits accept, a batch that is not a power of two; depth != batch, so a swap is visible
 	pool := []dims{
-		{rollup.Insertion, 3, 2}, {rollup.Deletion, 2, 5}, {rollup.Insertion, 32, 1}, {rollup.Deletion, 4, 2},
+		{rollup.Insertion, 3, 2}, {rollup.Deletion, 2, 5}, {rollup.Insertion, 32, 1}, {rollup.Deletion, 4, 1},
 		{rollup.Insertion, 5, 7}, {rollup.Deletion, 31, 2}, {rollup.Insertion, 4, 1}, {rollup.Deletion, 1, 3},
 	}
 	pick := pool[(worker+int(seed%uint64(len(pool)))+len(pool)-1)%len(pool)]
@@ -554,7 +561,7 @@ func (c *C11) Init(tier string, worker, nworkers int, seed uint64) error {
 	if err != nil {
 		return err
 	}
-	c.d, c.other, c.dw = d, o, worker
+	c.d, c.other, c.dw, c.nw = d, o, worker, nworkers
 	return nil
 }
 
@@ -564,7 +571,9 @@ func (c *C11) Run(x *engine.Ctx) *engine.Violation {
 	a := d.sys
 	path := []string{"raw", "compressed", "converted"}[t.Weighted(2, 2, 2)]
 	style := t.Weighted(3, 3, 2)
-	if ops.Bin() != "" && x.Run%3 == 0 {
+	// the CLI nodes go by the run's ordinal WITHIN its worker (runs are dealt round-robin, so x.Run modulo
+	// anything that shares a factor with the worker count would tie a node to particular workers' systems)
+	if ops.Bin() != "" && c.ordinal(x)%3 == 0 {
 		if v := c.cliConvert(x); v != nil {
 			return v
 		}
@@ -758,6 +767,13 @@ func (c *C15) cliOnPrefix(x *engine.Ctx, format string, prefix []byte, ends [4]i
 }
 
 // cliConvert: `gnark-mbu convert-to-raw` on A's compressed file must write exactly A's raw file.
+func (c *C11) ordinal(x *engine.Ctx) int {
+	if c.nw <= 0 {
+		return int(x.Run)
+	}
+	return int(x.Run) / c.nw
+}
+
 func (c *C11) cliConvert(x *engine.Ctx) *engine.Violation {
 	dir, err := ops.Scratch(fmt.Sprintf("c11cli-%d-%d", os.Getpid(), x.Run))
 	if err != nil {
@@ -768,7 +784,7 @@ func (c *C11) cliConvert(x *engine.Ctx) *engine.Violation {
 	if err := os.WriteFile(in, c.d.comp, 0o644); err != nil {
 		panic(err)
 	}
-	variant := int(x.Run/3) % 4 // enumerated, so that a short run covers every output-path history
+	variant := (c.ordinal(x) / 3) % 4 // enumerated, so that a short run covers every output-path history
 	inPlace := variant == 1
 	if inPlace {
 		out = in // converting a keys file in place (same path for input and output)
@@ -813,6 +829,67 @@ func (c *C11) cliConvert(x *engine.Ctx) *engine.Violation {
 			return engine.Violatef("C11/cli-converted-file-differs-from-raw-file", "%s: `gnark-mbu convert-to-raw` wrote %d bytes that neither are nor reload to the raw file the system writes itself (%d bytes)", c.d.sys.Key(), len(got), len(c.d.raw))
 		}
 		x.S.Count("probe:cli_converted_file_differs_in_bytes_but_reloads_identically")
+	}
+	if c.ordinal(x)%2 == 0 {
+		// the files are what the command-line prover and verifier boot from: node E reads the converted file,
+		// node F the compressed one the setup wrote
+		keys, what := out, "converted"
+		if c.ordinal(x)%4 == 0 && !inPlace {
+			keys, what = in, "compressed"
+		}
+		return c.cliProveVerify(x, keys, what)
+	}
+	return nil
+}
+
+// cliProveVerify: a fresh `gnark-mbu prove` process booted from the keys file must produce a proof the
+// ORIGINAL system verifies, and a fresh `gnark-mbu verify` process booted from it must accept a proof the
+// original system produced - interchangeability, observed where the files are actually consumed.
+func (c *C11) cliProveVerify(x *engine.Ctx, keys, what string) *engine.Violation {
+	s, t := c.d.sys, x.T
+	var doc map[string]any
+	var hash *big.Int
+	var orig *prover.Proof
+	var perr error
+	gtier.SeedRand(uint64(t.U32())<<32|uint64(t.U32()), uint64(t.U32()))
+	if s.Mode == rollup.Insertion {
+		w, _ := validInsertion(t, s)
+		doc, hash = service.InsertionDoc(w), w.InputHash
+		orig, perr = s.PS.ProveInsertion(gtier.InsertionParams(w))
+	} else {
+		w, _ := validDeletion(t, s)
+		doc, hash = service.DeletionDoc(w), w.InputHash
+		orig, perr = s.PS.ProveDeletion(gtier.DeletionParams(w))
+	}
+	if perr != nil {
+		panic("original system cannot prove a valid batch: " + perr.Error()) // C07's business; machinery trouble here
+	}
+	stdin, _ := json.Marshal(doc)
+	seed := strconv.FormatUint(uint64(t.U32()), 10)
+	r := ops.Run(ops.Cmd{Args: []string{"prove", "--keys-file", keys, "--mode", s.Mode}, Stdin: stdin, RandSeed: seed, Env: []string{"MTB_MODE="}})
+	x.S.Eval(1)
+	x.S.Count("probe:cli_prove_from_" + what + "_file")
+	x.Log.Addf("cli", "prove", "%s file=%s exit=%d", s.Key(), what, r.Exit)
+	if r.Exit != 0 {
+		return engine.Violatef("C11/cli-prover-booted-from-file-fails", "%s: `gnark-mbu prove --mode %s` on the %s keys file of this system refuses a valid batch: %s", s.Key(), s.Mode, what, ops.Describe(r))
+	}
+	coords, derr := gtier.DecodeJSON(bytes.TrimSpace(r.Stdout))
+	if derr != nil {
+		return engine.Violatef("C11/cli-prover-booted-from-file-fails", "%s: prove exited 0 on the %s file but its output is not a proof: %v", s.Key(), what, derr)
+	}
+	if pr, ferr := gtier.FromCoordinates(coords); ferr != nil || gtier.VerifyWithVK(s, pr, hash) != nil {
+		return engine.Violatef("C11/proof-from-reloaded-system-rejected-by-original", "%s: the proof `gnark-mbu prove` made from the %s keys file does not verify under the original verifying key", s.Key(), what)
+	}
+	pj, merr := orig.MarshalJSON()
+	if merr != nil {
+		panic(merr)
+	}
+	r = ops.Run(ops.Cmd{Args: []string{"verify", "--keys-file", keys, "--mode", s.Mode, "--input-hash", "0x" + hash.Text(16)}, Stdin: pj, RandSeed: seed, Env: []string{"MTB_MODE="}})
+	x.S.Eval(1)
+	x.S.Count("probe:cli_verify_from_" + what + "_file")
+	x.Log.Addf("cli", "verify", "%s file=%s exit=%d", s.Key(), what, r.Exit)
+	if r.Exit != 0 {
+		return engine.Violatef("C11/original-proof-rejected-by-reloaded-system", "%s: `gnark-mbu verify --mode %s` booted from the %s keys file rejects a proof the original system produced: %s", s.Key(), s.Mode, what, ops.Describe(r))
 	}
 	return nil
 }
